@@ -1,5 +1,6 @@
 """C16 — aggregations are exact over the whole match set."""
-GEN = True             # go/extract/c16.go: dedupNeeded (DocValueReaderForReader), rangeFieldsNested (Range/DateRange .Fields)
+GEN = True             # go/extract/c16.go: dedupNeeded, rangeFieldsNested, sharedMutable (every Calculator() builds fresh state),
+                       # statement order of collectSingle and AllIterator.Next
 STATELESS = False          # a case = one generated corpus + its requests
 REQUIRED_BRANCHES = [
     "all", "topn", "after", "before", "n0", "after-skip", "shortcut", "evict", "heap-store",
@@ -7,6 +8,8 @@ REQUIRED_BRANCHES = [
     "terms-other-positive", "no-match",
     "agg:sum", "agg:min", "agg:max", "agg:avg", "agg:wavg", "agg:count", "agg:card", "agg:quant",
     "agg:terms", "agg:ranges", "agg:dranges",
+    # sketches nested under terms / range buckets, several non-empty buckets; aggregation definitions re-used by later requests
+    "nested-quantiles", "nested-cardinality", "nested-sketch-several-buckets", "nested:quant", "nested:card", "def:reused",
 ]
 ASSUMPTIONS = [
     "segment plugin (ice): the doc values of a document/field are its distinct indexed terms in ascending term order "
@@ -16,8 +19,11 @@ ASSUMPTIONS = [
     "and checked to be a sort by descending count",
     "float64 arithmetic: the driver evaluates the same definitions at Lean Float in the same operation order (bit-identical "
     "on amd64 without FMA contraction); the theorems are over exact ordered fields / monoids",
-    "hyperloglog and go-tdigest internals: the calculators are proved to feed them exactly the matched values; the estimate is "
-    "compared with the same Go sketch fed directly; quantile in [min,max] and monotone in the rank is checked per request, not proved",
+    "hyperloglog and go-tdigest internals: the calculators are proved to feed them exactly the matched values; every sketch "
+    "(top level and per terms / range bucket) is compared with the same Go sketch type fed directly with that bucket's values; "
+    "quantile in [min,max] of those values and monotone in the rank is checked per sketch, not proved",
+    "one calculator's state is its own: regenerated fact sharedMutable = [] (no Calculator() hands a mutable field of the "
+    "aggregation definition to the calculator), exercised by re-using the same definition objects across requests",
     "uint64(count) reads the float64 sum of 1.0 per Consume exactly (below 2^53 matches)",
     "the searcher delivers the same matches in the same order to the TopN collector and to an AllMatches run of the same query on the same reader",
 ]
@@ -31,6 +37,10 @@ def signature(rec):
         return "agg-field-listed-twice-in-needed-fields"
     if v.startswith("bad:nested-field-not-loaded"):
         return "range-agg-fields-omit-nested-aggregations"
+    if v.startswith("bad:sketch-not-fed-exactly"):
+        return "sketch-not-fed-exactly"        # the path (a<i>/<bucket>/s<j>) is in the verdict, not in the signature
+    if v.startswith("bad:quantile-out-of-range-or-not-monotone"):
+        return "quantile-out-of-range-or-not-monotone"
     if v.startswith("bad:search-does-not-return"):
         # a numeric range query whose term walk is astronomically long is C10's finding, met here through the query
         return "numeric-range-walk-exceeds-cap" if " q=nr:" in rec["op"] else "search-does-not-return"
